@@ -179,3 +179,9 @@ def run(cx):
     b = cx.fn(f'{AL}::new')
     if b:
         cx.expect('EXPR', 'Alignment::new', cx.retval(b), '(agg * (transform (param transform)) (residuals (param residuals)))', 'Alignment::new stores its arguments', where=b.file)
+
+
+def run_thorough(cx):
+    """thorough tier: the generic evaluators this property relies on must fire on their positive fixture twins"""
+    from rules import fixture_check as FX
+    FX.enc(cx)
